@@ -95,6 +95,20 @@ func genC12(seed uint64, idx int, tier string) *Plan {
 	if idx%4 == 3 {
 		return genAdv(seed, idx, tier)
 	}
+	if idx%4 == 1 {
+		// a well-formed response with an OPT record full of options of every
+		// small size (EDNS options a client may look at: extended errors,
+		// cookies, padding ...), under a success or failure response code
+		rc := core.Pick(r, []int{0, 1, 2, 3, 5, 16, 23})
+		opt := simdoh.RR{Type: simdoh.TypeOPT, Class: 1232, TTL: uint32(rc>>4) << 24}
+		for k := core.Between(r, 1, 4); k > 0; k-- {
+			opt.Opts = append(opt.Opts, simdoh.Opt{Code: uint16(core.Pick(r, []int{15, 15, 15, 12, 10, 8, 3, 11, 65001})), Data: core.Bytes(r, core.Pick(r, []int{0, 1, 1, 2, 3, 4, 5, 40}))})
+		}
+		qt := uint16(core.Pick(r, []int{simdoh.TypeHTTPS, simdoh.TypeA, simdoh.TypeAAAA}))
+		m := &simdoh.Msg{Flags: 0x8180 | uint16(rc&0xf), Question: []simdoh.Question{{Name: "a.test", Type: qt, Class: 1}}, Additional: []simdoh.RR{opt}}
+		body, _ := m.Encode(simdoh.EncodeOpts{})
+		return &Plan{Kind: "bytes", Seed: seed, Bytes: &BytesPlan{Body: body, Host: "a.test", QType: qt, CacheOff: core.Chance(r, 1, 2), Note: "OPT options"}}
+	}
 	z, inputs := genUniverse(r, 1)
 	p := &MutatePlan{Zone: z}
 	p.Zone.Faults = nil
